@@ -34,10 +34,9 @@ LEVEL_TEXT = ('Theorems over Gallina models of all storage back-ends for every h
               'load, is_cached and remove (unbounded length, any addresses satisfying the stated validity conditions): the '
               'outputs equal those of the abstract map address -> bytes.  The address -> path / bundle slot / row key '
               'functions are generated from the Python source; their injectivity is proved on the generated definitions.')
-LEVEL_NOTE = ('Proved in full: file cache (6 layouts x 3 link modes x dimensions) and compact v1/v2 for all histories. '
-              'PARTIAL for the four sqlite back-ends: refinement proved for histories without bulk loads, the batching of '
-              'the bulk load proved on the extracted constants; that the bulk load equals the per-tile loads (and the '
-              'per-level dispatch of it) is validated by the correspondence check only (incl. requests > 333 tiles). '
+LEVEL_NOTE = ('Proved in full for all back-ends: file cache (6 layouts x 3 link modes x dimensions), compact v1/v2, the four '
+              'sqlite back-ends (incl. the bulk load with its batching, requests that repeat a coordinate, and the per-level '
+              'dispatch). '
               'Trusted: Coq kernel, translator, hand-written operational models (FileCache.v, SqlCache.v) validated by the '
               'correspondence check; SQLite, the file system and the image codecs are modelled, not verified; the byte '
               'level of compact bundles belongs to C19 (here: keyed store over bundle file and index slot). Operations get '
@@ -56,8 +55,8 @@ ASSUMPTIONS = ['tile coordinates and levels are non-negative',
                'all addresses of one cache use the same dimension keys (lower case, distinct); values are arbitrary text',
                'quadkey layout: x, y < 2^z and no dimensions; arcgis layout: no dimensions (finding F4 otherwise)',
                'sqlite / compact back-ends: no dimensions (the configuration loader refuses dimension layers there)',
-               'bulk load requests do not name the same address twice (sqlite back-ends: finding C05-dup otherwise)',
-               'every operation is given fresh Tile objects; no concurrent writers (C06/C07/C08 cover those)']
+               'every operation is given fresh Tile objects; no concurrent writers (C06/C07/C08 cover those)',
+               'temporary names (location + .tmp-<random>) of write_atomic and of the link store are unused names']
 EXPLANATION = ('refinement to the abstract map proved per back-end model for all histories; generated path / slot / '
                'batching definitions; real back-ends driven through colliding histories and compared in Coq')
 
@@ -69,7 +68,6 @@ COMPACT_KINDS = ['compact1', 'compact2']
 
 SIG_F4_DIMS = 'file,layout=%s,dimensions-ignored'
 SIG_F4_QUAD = 'file,layout=quadkey,collision-outside-quad-range'
-SIG_DUP = '%s,bulk-load,repeated-address'
 
 
 # ----------------------------------------------------------------------------- payloads
@@ -360,13 +358,6 @@ def explain_f4(cfg, ops, i):
     return None
 
 
-def has_repeated_bulk_load(op):
-    if op[0] != 'load_many':
-        return False
-    cs = [tuple(c) for c in op[1]]
-    return len(set(cs)) != len(cs)
-
-
 def oracle(ctx, pay, cfg, ops, outs, origin):
     exp = spec_outputs(pay, ops)
     for i, (e, g) in enumerate(zip(exp, outs)):
@@ -375,8 +366,6 @@ def oracle(ctx, pay, cfg, ops, outs, origin):
         sig = None
         if g and g[0] != 'raised':
             sig = explain_f4(cfg, ops, i)
-            if sig is None and cfg['kind'] in SQL_KINDS and has_repeated_bulk_load(ops[i]):
-                sig = SIG_DUP % cfg['kind']
         if sig is None:
             sig = classify(cfg, ops, i, e, g)
         # minimal replay: the operations that touch the addresses of op i
@@ -558,7 +547,9 @@ def gen_ops(rng, pay, pool, length, link=False):
         elif r < 0.74:
             group = by_dims[a[3]]
             k = rng.randrange(1, min(6, len(group)) + 1)
-            ops.append(('load_many', [(b[0], b[1], b[2]) for b in rng.sample(group, k)], a[3]))
+            # a request may name an address more than once (every tile object has to be filled)
+            sel = rng.sample(group, k) if rng.random() < 0.75 else [rng.choice(group) for _ in range(k + 1)]
+            ops.append(('load_many', [(b[0], b[1], b[2]) for b in sel], a[3]))
         elif r < 0.84:
             ops.append(('cached', a))
         elif r < 0.97:
@@ -684,7 +675,7 @@ def dup_probes():
     out = []
     for k in SQL_KINDS:
         out.append(({'kind': k}, [('store', (1, 2, 3, ()), 6), ('load_many', [(1, 2, 3), (1, 2, 3)], ())],
-                    'probe:C05-dup-repeated-address'))
+                    'probe:repeated-address'))
     return out
 
 
@@ -705,6 +696,8 @@ def big_bulk_history(rng, pay, cfg, n):
     ops.append(('load_many', list(reversed(coords)), ()))
     ops.append(('load_many', coords[:333], ()))
     ops.append(('load_many', coords[:334], ()))
+    # repeated coordinates inside one batch and across batches (present and absent ones)
+    ops.append(('load_many', coords + [coords[0], coords[333], coords[2], coords[n - 1]] + coords[300:340], ()))
     return ops
 
 
